@@ -1467,6 +1467,14 @@ func (sc *serverConn) sendData(strm *Stream) bool {
 			}
 
 			if len(strm.pendingData) == 0 {
+				// The reader ended without another byte (an empty body, or an
+				// EOF that came on a read of its own). The peer is still
+				// waiting for END_STREAM, and an empty DATA frame needs no
+				// window.
+				if strm.pendingEnd {
+					sc.writeEndStream(strm.ID())
+				}
+
 				break
 			}
 		}
@@ -1506,11 +1514,31 @@ func (sc *serverConn) sendData(strm *Stream) bool {
 
 		strm.window -= step
 		sc.clientWindow -= step
+
+		if end {
+			// END_STREAM is out: do not go back to the reader for more
+			break
+		}
 	}
 
 	sc.closeBodyStream(strm)
 
 	return true
+}
+
+// writeEndStream ends a stream with an empty DATA frame.
+func (sc *serverConn) writeEndStream(id uint32) {
+	fr := AcquireFrameHeader()
+	fr.SetStream(id)
+
+	data := AcquireFrame(FrameData).(*Data)
+	data.SetEndStream(true)
+	data.SetPadding(false)
+	data.SetData(nil)
+
+	fr.SetBody(data)
+
+	sc.write(fr)
 }
 
 // flushStreams resumes any streams whose buffered response data was blocked on
